@@ -17,7 +17,7 @@ import json
 import math
 from typing import Any
 
-from ..core import HarnessError, Violation
+from ..core import HarnessError, Violation, exception_from_sut, format_exc
 from ..scope_model import child_name, scope_ids
 from ..vloop import Deadlock, run_virtual
 
@@ -31,6 +31,15 @@ TIMEOUT_KINDS = ("timeout", "timeout_at")
 
 def secs(units: int) -> float:
     return units / UNIT
+
+
+def _leaves(exc: BaseException) -> list[BaseException]:
+    if isinstance(exc, BaseExceptionGroup):
+        out: list[BaseException] = []
+        for e in exc.exceptions:
+            out += _leaves(e)
+        return out
+    return [exc]
 
 
 class _RecTask(asyncio.Task):  # type: ignore[type-arg]
@@ -105,6 +114,7 @@ class RealRun:
         self.loop: Any = None
         self.backend: Any = None
         self._body_done = False
+        self.unexpected: BaseException | None = None
 
     # -- recording -------------------------------------------------------------------------------
 
@@ -379,7 +389,7 @@ class RealRun:
             self.outcome = "cancelled"
         except BaseException as exc:  # noqa: BLE001
             self.outcome = f"error:{type(exc).__name__}"
-            self.problem("unexpected-exception", f"program raised {type(exc).__name__}: {exc}", exc=repr(exc))
+            self.unexpected = exc
         finally:
             self._body_done = True
             if handle is not None:
@@ -444,6 +454,17 @@ class RealRun:
         except Deadlock as exc:
             self.outcome = "deadlock"
             self.problem("hang", f"program did not terminate on the virtual loop: {exc}")
+        exc = self.unexpected
+        if exc is not None:
+            self.unexpected = None
+            leaves = _leaves(exc)
+            if any(isinstance(e, HarnessError) for e in leaves) or not any(exception_from_sut(e) for e in leaves):
+                raise HarnessError(f"C13 executor failed: {format_exc(exc)}") from exc
+            self.problem(
+                "unexpected-exception",
+                f"program raised {type(exc).__name__}: {[repr(e) for e in leaves][:4]}",
+                traceback=format_exc(exc),
+            )
         return self
 
     def summary(self) -> dict:
